@@ -54,17 +54,30 @@ def gen_cases(rng, tier):
     sizes = list(range(0, 71)) + [95, 96, 97, 127, 128, 129, 255, 256, 257, 1023, 1024, 1500]
     if tier == "thorough":
         sizes += list(range(71, 200)) + [2047, 2048, 2049, 4095, 4096, 4097]      # the extracted model is quadratic in the size: larger sizes only add time
+    def content(n, hi):
+        # operand contents: random bytes, or (one operand in three) runs of zero / all-ones bytes of 1..24 bytes at any offset
+        # (seed C13h: a kernel that skipped all-zero source words lost its place; random bytes never contain one)
+        b = [rng.below(hi) for _ in range(n)]
+        if n and rng.chance(1, 3):
+            for _ in range(rng.rng(1, 4)):
+                start = rng.below(n); ln = rng.choice([1, 4, 7, 8, 8, 9, 16, 24]); v = rng.choice([0, 0, 0, hi - 1])
+                if rng.chance(1, 2):
+                    start -= start % 8
+                for j in range(start, min(n, start + ln)):
+                    b[j] = v
+        return b
+
     def mk(fn, size, nops, c):
         if fn in (1, 4, 5, 6, 7):
             nops = 1
         hi = 16 if fn == 6 else 256
         extra = rng.below(4)
         if fn == 3:
-            src = [rng.below(256) for _ in range(size)]          # exact size: any over-read is an ASan error
-            bufs = [src] + [[rng.below(256) for _ in range(size + rng.below(4))] for _ in range(nops)]
+            src = content(size, 256)          # exact size: any over-read is an ASan error
+            bufs = [src] + [content(size + rng.below(4), 256) for _ in range(nops)]
         else:
-            dst = [rng.below(hi) for _ in range(size + extra)]
-            bufs = [dst] + [[rng.below(hi) for _ in range(size)] for _ in range(nops)]
+            dst = content(size + extra, hi)
+            bufs = [dst] + [content(size, hi) for _ in range(nops)]
         al = "".join(str(rng.below(8)) for _ in bufs)
         return (fn, size, c, al, bufs)
     for fn in (1, 2, 3, 4, 5, 6, 7):
